@@ -6,6 +6,7 @@ import XlModel.DvRecord
 import XlModel.CfRule
 import XlModel.XmlAttr
 import XlModel.Margins
+import XlModel.HeaderFooter
 import XlModel.Drv.Util
 namespace XlModel.Drv.C18
 open XlModel XlModel.Settings XlModel.Drv
@@ -209,6 +210,43 @@ def runPmg (w : List String) : String :=
       let fb : Option Bool → String := fun b => match b with | none => "~" | some true => "1" | some false => "0"
       "ok " ++ " ".intercalate (o.m.map (fun x => x.getD "~") ++ [fb o.h, fb o.v])
   | _, _, _ => "bad-op"
+
+/-- `hfs`: successive SetHeaderFooter calls (11 tokens each: n|o + the ten fields), then GetHeaderFooter -/
+def hfParse (ty tok : String) : Option HeaderFooter.Val :=
+  if ty == "*bool" then (pmgFlag tok).map HeaderFooter.Val.pb
+  else if ty == "bool" then (if tok == "0" then some (.b false) else if tok == "1" then some (.b true) else none)
+  else (unhexS tok).map HeaderFooter.Val.s
+
+def hfShow : HeaderFooter.Val → String
+  | .pb none => "~"
+  | .pb (some true) => "1"
+  | .pb (some false) => "0"
+  | .b true => "1"
+  | .b false => "0"
+  | .s t => hexS t
+
+def runHfs (w : List String) : String :=
+  let n := Facts.C18.hfOptFields.length
+  match pmgChunks w.length (n + 1) w with
+  | none => "bad-op"
+  | some calls =>
+    let step (acc : Option (Option (List HeaderFooter.Val) × List String)) (c : List String) :=
+      match acc with
+      | none => none
+      | some (st, out) =>
+        let o : Option (Option (List HeaderFooter.Val)) :=
+          if c.head? == some "n" then some none
+          else ((Facts.C18.hfOptFields.map (·.2)).zip (c.drop 1)).mapM (fun p => hfParse p.1 p.2) |>.map some
+        match o with
+        | none => none
+        | some o =>
+          match HeaderFooter.setHF st o with
+          | none => some (st, out ++ ["E_HF"])
+          | some st' => some (st', out ++ ["ok"])
+    match calls.foldl step (some (none, [])) with
+    | none => "bad-op"
+    | some (st, out) =>
+      " ".intercalate (out ++ ["|"] ++ (match HeaderFooter.getHF st with | none => ["nil"] | some f => f.map hfShow))
 
 def runCfr (w : List String) : String :=
   match parseCfOpts w with
@@ -484,6 +522,7 @@ def step (st : St) (w : List String) : St × String :=
   | ["phxml"] => (st, protXml st.kind st.prot)
   | "cfr" :: rest => (st, runCfr rest)
   | "pmg" :: rest => (st, runPmg rest)
+  | "hfs" :: rest => (st, runHfs rest)
   | ["dvdel", rs, d] =>
     match (rs.splitOn ",").mapM unhexS, unhexS d with
     | some rules, some del => (st, runDvDel rules del)
